@@ -1,4 +1,24 @@
 TEXTS = {
+    "C05": {
+        "text": "Machine-checked Lean 4 theorem C05_holds: for every wiring in which the strong handle kinds own both "
+                "channel closures and the weak kinds own nothing and must upgrade (WellWired05, re-proved by decide "
+                "for the wiring regenerated from src/addr*.rs, src/channel.rs, src/context.rs on every run), every "
+                "run of the actor model - all handle manipulations (clone, downgrade, upgrade, convert, detach, drop "
+                "in any order and from any task), submissions, timers, restarts, under every interleaving - is "
+                "accepted by monC05: the final stopped() / finished() of an actor begins only if a stop was "
+                "requested, it failed, its stream ended, or no strong handle exists any more; upgrading a weak handle "
+                "succeeds only while a strong holder exists (a handle, an in-flight try_* / Caller::call, a timer "
+                "task in the middle of its send) - hence fails for ever once none is left (Dead05 is inductive: "
+                "dead_step); with no strong holder left no timer goes round again. Invariants: monitor handle table "
+                "= model handle table, in-flight and sending sets cover the model's owners, stop / restart requests "
+                "in the mailbox were issued, and 'the loop left idle because of a stop, the stream's end, or because "
+                "nothing owns a sender'.",
+        "design_ref": "DESIGN.md §5 C05",
+        "note": "Partial: 'drains and then terminates gracefully by quiescence' (monC05q) is trace-checked, not "
+                "proved (liveness). Trusted: Lean kernel + axioms; extractor facts holds/upgradeReq; Arc/Weak "
+                "reference counting modelled as owner sets, validated by trace acceptance.",
+        "technique": "Lean 4 proof (owner-set simulation + inductive 'nothing owns a sender' invariant) + regenerated wiring + checked trace correspondence",
+    },
     "C10": {
         "text": "Machine-checked Lean 4 theorem C10_holds (no wiring hypothesis): every run of the actor model - any "
                 "number of timers of the four kinds with any durations, any virtual-clock history, both mailbox kinds, "
@@ -185,5 +205,5 @@ TEXTS = {
 _PENDING = "check under construction in this round: model + theorem not yet wired into ./check (see DESIGN.md build order); not claimed until its three obligations run end to end"
 NOT_APPLICABLE = [
     {"property_id": p, "reason": _PENDING}
-    for p in ["C01", "C02", "C05", "C06", "C08", "C09", "C16"]
+    for p in ["C01", "C02", "C06", "C08", "C09", "C16"]
 ]
